@@ -118,6 +118,7 @@ type interp struct {
 	stubCalls   map[string]int
 	jsonBinds   []jsonBind
 	harnessStubs map[string][]value
+	tickers     int
 	atomicVals  map[*value]value
 	lastTime    *Term
 	reachedNow  []string
@@ -158,6 +159,7 @@ func (in *interp) resetPath() {
 	in.stubCalls = map[string]int{}
 	in.jsonBinds = nil
 	in.harnessStubs = map[string][]value{}
+	in.tickers = 0
 	in.atomicVals = map[*value]value{}
 	in.lastTime = nil
 	in.reachedNow = nil
